@@ -49,6 +49,7 @@ DEFAULT_PROFILE = dict(
   body_prob=0.95,
   timed_regions=True,
   region_refs=0.35,
+  time_shifts=None,     # offsets one of which is added to the body's interval (None: times stay below about 40 s)
   text_ws=True,
   max_nodes=40,
   anim_counts=(0, 0, 0, 1, 2, 3),
@@ -362,7 +363,24 @@ def docspecs(draw, prof=None):
     d["regions"].append(r)
   if draw(st.floats(0, 1)) < prof["body_prob"]:
     d["body"] = _node(draw, ctx, "body", 0, [r["id"] for r in d["regions"]])
+  if prof["time_shifts"]:
+    shift_times(d, draw(st.sampled_from(prof["time_shifts"])))
   return d
+
+
+def shift_times(spec, shift):
+  """moves the whole body later by `shift` seconds (minute / hour fields of written times, carries across them).  Left alone
+  when the body carries animation steps or a region is timed or animated with timed steps: their times do not move with the body"""
+  body = spec["body"]
+  if not shift or body is None or body["anims"]:
+    return spec
+  for r in spec["regions"]:
+    if r["begin"] is not None or r["end"] is not None or any(a[1] is not None or a[2] is not None for a in r["anims"]):
+      return spec
+  body["begin"] = (body["begin"] or F(0)) + shift
+  if body["end"] is not None:
+    body["end"] = body["end"] + shift
+  return spec
 
 
 # ---------------------------------------------------------------------------------------------- build / read back
